@@ -114,7 +114,7 @@ pub struct tokio_time { }
 // =====================================================================================================
 pub struct HybridCachePipe { pub store: StoreT }
 impl HybridCachePipe {
-//@region foyer/src/hybrid/cache.rs :: impl~Pipe for HybridCachePipe/fn send name=pipe_send start=/match piece\.properties\(\)\.location\(\)/ end=/self\.store\.enqueue\(piece, false\);/
+//@region foyer/src/hybrid/cache.rs :: impl~Pipe for HybridCachePipe/fn send name=pipe_send whole=1
 //@head
     fn pipe_send(&mut self, piece: PieceT)
         ensures
@@ -137,7 +137,7 @@ pub proof fn lemma_on_disk_push(p: Seq<PieceT>, x: PieceT)
 {
     assert(p.push(x).drop_last() =~= p);
 }
-//@region foyer/src/hybrid/cache.rs :: impl~Pipe for HybridCachePipe/fn flush name=pipe_flush start=/for piece in pieces \{/ end=/for piece in pieces \{/ rules=de-async sub=@bytes as _@bytes@ sub=@tokio::time::sleep\(wait\)@verif_sleep(wait)@
+//@region foyer/src/hybrid/cache.rs :: impl~Pipe for HybridCachePipe/fn flush name=pipe_flush start=/for piece in pieces \{/ stmts=1 rules=de-async sub=@bytes as _@bytes@ sub=@tokio::time::sleep\(wait\)@verif_sleep(wait)@
 //@head
 fn pipe_flush(store: &mut StoreT, throttler: Option<RateLimiter>, pieces: Vec<PieceT>)
     ensures
@@ -160,7 +160,7 @@ fn pipe_flush(store: &mut StoreT, throttler: Option<RateLimiter>, pieces: Vec<Pi
 pub struct InnerT { pub policy: HybridCachePolicy, pub memory: MemT, pub storage: StoreT }
 pub struct HybridT { pub inner: InnerT }
 impl HybridT {
-//@region foyer/src/hybrid/cache.rs :: impl~^impl<K, V, S> HybridCache<K, V, S> where/fn insert name=hybrid_insert start=/let entry = self\.inner\.memory\.insert\(key, value\);/ end=/self\.inner\.storage\.enqueue\(entry\.piece\(\), false\);/
+//@region foyer/src/hybrid/cache.rs :: impl~^impl<K, V, S> HybridCache<K, V, S> where/fn insert name=hybrid_insert start=/let entry = self\.inner\.memory\.insert\(/ stmts=2
 //@head
     fn hybrid_insert(&mut self, key: u64, value: u64) -> (r: EntryT)
         ensures
@@ -171,7 +171,7 @@ impl HybridT {
         entry
 //@end
 
-//@region foyer/src/hybrid/cache.rs :: impl~^impl<K, V, S> HybridCache<K, V, S> where/fn insert_with_properties name=hybrid_insert_with_properties start=/let entry = self\.inner\.memory\.insert_with_properties\(key, value, properties\);/ end=/self\.inner\.storage\.enqueue\(entry\.piece\(\), false\);/
+//@region foyer/src/hybrid/cache.rs :: impl~^impl<K, V, S> HybridCache<K, V, S> where/fn insert_with_properties name=hybrid_insert_with_properties start=/let entry = self\.inner\.memory\.insert_with_properties\(/ stmts=2
 //@head
     fn hybrid_insert_with_properties(&mut self, key: u64, value: u64, properties: HybridCacheProperties) -> (r: EntryT)
         ensures
@@ -191,7 +191,7 @@ impl HybridT {
 // =====================================================================================================
 pub struct CtxT { pub throttled: FlagT }
 pub struct PollT { pub policy: HybridCachePolicy, pub store: StoreT, pub ctx: CtxT }
-//@region foyer/src/hybrid/cache.rs :: impl~Future for HybridGetOrFetch/fn poll name=get_or_fetch_post_enqueue start=/if let Ok\(entry\) = res\.as_ref\(\)/ end=/this\.store\.enqueue\(entry\.piece\(\), false\);/ rules=let-chain sub=@\*this\.policy@this.policy@
+//@region foyer/src/hybrid/cache.rs :: impl~Future for HybridGetOrFetch/fn poll name=get_or_fetch_post_enqueue start=/if let Ok\(entry\) = res\.as_ref\(\)/ stmts=1 rules=let-chain sub=@\*this\.policy@this.policy@
 //@head
 fn get_or_fetch_post_enqueue(this: &mut PollT, res: &Result<EntryT>)
     ensures
@@ -209,7 +209,7 @@ fn get_or_fetch_post_enqueue(this: &mut PollT, res: &Result<EntryT>)
 // =====================================================================================================
 // C15: graceful close
 // =====================================================================================================
-//@region foyer/src/hybrid/cache.rs :: impl~^impl<K, V, S> Inner<K, V, S> where/fn close_inner name=close_inner start=/if closed\.fetch_or\(true, Ordering::Relaxed\) \{/ end=/storage\.close\(\)\.await\?;/ rules=drop-tracing,de-async
+//@region foyer/src/hybrid/cache.rs :: impl~^impl<K, V, S> Inner<K, V, S> where/fn close_inner name=close_inner start=/if closed\.fetch_or\(/ stmts=4 rules=drop-tracing,de-async
 //@head
 fn close_inner(closed: &mut FlagT, memory: &mut MemT, storage: &mut StoreT, flush_on_close: bool) -> (r: Result<()>)
     ensures
@@ -230,7 +230,7 @@ pub struct BuilderT { pub noop: bool }
 impl BuilderT { pub fn is_noop(&self) -> (b: bool) ensures b == self.noop { self.noop } }
 pub struct OptionsT { pub policy: HybridCachePolicy }
 pub struct BuildSelfT { pub options: OptionsT }
-//@region foyer/src/hybrid/builder.rs :: impl~HybridCacheBuilderPhaseStorage/fn build name=build_piped start=/let piped = match \(builder\.is_noop\(\), self\.options\.policy\)/ end=/let piped = match \(builder\.is_noop\(\), self\.options\.policy\)/ sub=@self\.options@this.options@
+//@region foyer/src/hybrid/builder.rs :: impl~HybridCacheBuilderPhaseStorage/fn build name=build_piped start=/let piped = match/ stmts=1 sub=@self\.options@this.options@
 //@head
 fn build_piped(builder: &BuilderT, this: &BuildSelfT) -> (r: bool)
     ensures r == (!builder.noop && this.options.policy == HybridCachePolicy::WriteOnEviction), // @label evictions_are_piped_to_disk_iff_write_on_eviction_over_a_real_store
